@@ -19,6 +19,8 @@ PROFILES = {
     'shipped_sto': lambda rnd: sp.gen_shipped(rnd, dyn='sto'),
     'queue': lambda rnd: sp.gen_script_queue(rnd),
     'composed': lambda rnd: sp.gen_composed(rnd),
+    'composed_syn': lambda rnd: sp.gen_composed(rnd, dyn='syn'),
+    'composed_sto': lambda rnd: sp.gen_composed(rnd, dyn='sto'),
     'deco': lambda rnd: sp.gen_deco(rnd),
     'fixrec0': lambda rnd: sp.gen_fixrec0(rnd),
     'adaptive': lambda rnd: sp.gen_adaptive(rnd),
